@@ -4,6 +4,7 @@ import (
 	_ "verif/mc/checks/c01"
 	_ "verif/mc/checks/c02"
 	_ "verif/mc/checks/c05"
+	_ "verif/mc/checks/c06"
 	_ "verif/mc/checks/c07"
 	_ "verif/mc/checks/c08"
 	_ "verif/mc/checks/c09"
